@@ -4,7 +4,7 @@
 Require Extraction.
 Require Import ExtrOcamlBasic.
 From Coq Require Import NArith ZArith List.
-From Desert Require Import Outcome IO.
+From Desert Require Import Outcome IO Types Codec CodecB.
 Extraction Blacklist List String Int.
 Extraction "model.ml"
   N.add N.mul N.sub N.div N.modulo N.eqb N.ltb N.leb N.of_nat N.to_nat N.succ N.pow
@@ -14,4 +14,6 @@ Extraction "model.ml"
   list_reader slice_reader owned_reader ctx_reader rctx_new push_region pop_region ctx_pos
   iregion_new iregion_empty
   run_oops run_wops expand vec_sink bytesmut_sink size_sink sctx_sink be_bytes of_be
-  to_signed to_unsigned.
+  to_signed to_unsigned
+  enc dec a_ops b_ops decodeA decodeB utf8_valid val_eqb cases_of bigint_to_be bigint_of_be
+  field_generation made_optional_at in_removed str_store str_id.
